@@ -419,22 +419,122 @@ def run(ctx):
     spec_oracle(ctx, shim, model, "spec-oracle-random", random_long_lines(ch, ctx.rng("long"), ctx.budget(30000, 500000)),
                 "random words of length <= 40 with contexts of 0..7 classes (API keeps 5), random representatives")
     metamorphic(ctx, shim, ch, ctx.rng("meta"), ctx.budget(10000, 150000))
-    shape_e2e(ctx, shim, ch)
+    shape_e2e(ctx, shim, model, ch, ctx.rng("e2e"), ctx.budget(20000, 300000), ctx.budget(3, 5))
 
 
-def shape_e2e(ctx, shim, ch):
+# letters of the generated positional-forms font, per class.  Chosen so that shape() itself does not disturb the
+# text: no canonical (de)compositions among them, marks do not compose with the letters; default ignorables
+# (ZWJ, ZWNJ) are kept by PRESERVE_DEFAULT_IGNORABLES.
+E2E_LETTERS = {
+    "U": [0x0041, 0x0621, 0x200C, 0x0030],
+    "L": [0xA872, 0x10ACD],
+    "R": [0x0627, 0x062F, 0x0648, 0x0717, 0x0718],
+    "D": [0x0628, 0x0633, 0x064A, 0x0712, 0x071D, 0x07CA],
+    "C": [0x0640, 0x200D],
+    "T": [0x064B, 0x0651, 0x070F, 0x0730],
+    "A": [0x0710],
+    "S": [0x0715, 0x0716, 0x072A, 0x072F],
+}
+
+
+def e2e_font(fontbuild):
+    letters = [c for k in CLASSES for c in E2E_LETTERS[k]]
+    k = len(letters)
+    feats = ["isol", "fina", "fin2", "fin3", "medi", "med2", "init"]      # OpenType names; glyph block j+1 = feature j
+    recipe = {
+        "num_glyphs": 1 + 8 * k,
+        "cmap": {c: 1 + i for i, c in enumerate(letters)},
+        "advances": [600] * (1 + 8 * k),
+        "gsub": {
+            "scripts": [{"tag": t, "default": {"required": None, "features": list(range(7))}, "langs": []}
+                        for t in ("DFLT", "arab", "syrc")],
+            "features": [{"tag": f, "lookups": [j]} for j, f in enumerate(feats)],
+            "lookups": [{"type": 1, "flag": 0,
+                         "subtables": [{"format": 1, "coverage": {"ranges": [(1, k)]}, "delta": k * (j + 1)}]}
+                        for j in range(7)],
+        },
+    }
+    return letters, feats, recipe
+
+
+def shape_e2e(ctx, shim, model, ch, r, n, maxlen_exh):
+    """End to end through the public shape(): a font whose 7 positional features map every letter to a distinct
+    glyph per form; the form read off the output glyph must be the spec's form (Lean spec through `arabic cls`)."""
     try:
-        import fontbuild  # noqa: F401
+        import fontbuild
     except ImportError:
         ctx.cov.setdefault("not_run", []).append("shape-e2e: tools/fontbuild.py not available")
         return
-    ctx.cov.setdefault("not_run", []).append("shape-e2e: not implemented yet")
+    letters, feats, recipe = e2e_font(fontbuild)
+    k = len(letters)
+    cls_of = {c: kk for kk in CLASSES for c in E2E_LETTERS[kk]}
+    # the classes of the font's letters, as the crate sees them
+    ch.learn(shim, letters)
+    for c in letters:
+        if ch.res[c] != JT_NUM[cls_of[c]]:
+            return  # already reported by known-chars
+    fontline = "font c11e2e " + fontbuild.hexfont(recipe)
+    cases = []   # (script, pre, text, post) as class words + chosen letters
+    pick = lambda w: [r.choice(E2E_LETTERS[x]) for x in w]
+    # exhaustive short words x contexts of length 0/1 (one random letter per class occurrence)
+    ctxs = [""] + list(CLASSES)
+    for pre in ctxs:
+        for post in ctxs:
+            for ln in range(1, maxlen_exh + 1):
+                for w in itertools.product(CLASSES, repeat=ln):
+                    cases.append(("arab" if r.chance(3, 4) else "syrc", pre, "".join(w), post))
+    for _ in range(n):
+        cases.append((r.choice(["arab", "arab", "syrc"]), rand_word(r, r.choice([0, 1, 2, 5])),
+                      rand_word(r, r.choice([5, 8, 12, 30])) or "D", rand_word(r, r.choice([0, 1, 2, 5]))))
+    lines, oracle, meta = [], [], []
+    for script, pre, w, post in cases:
+        p, t, q_ = pick(pre), pick(w), pick(post)
+        hx = lambda xs: ",".join("%x" % c for c in xs) or "-"
+        text = ",".join("%x:%d" % (c, i) for i, c in enumerate(t))
+        # flags 4 = PRESERVE_DEFAULT_IGNORABLES, cluster level 1 = monotone characters, direction rtl
+        lines.append(f"shape c11e2e r {script} - 4 1 - {hx(p)} {hx(q_)} {text}")
+        oracle.append(f"arabic cls 0,0,0,0,0,0,0,0 {pre or '-'} {w} {post or '-'}")
+        meta.append(t)
+    outs = vlib.run_groups(shim, [[fontline] + lines])[0]
+    if outs[0] != "ok":
+        ctx.violation(f"generated positional-forms font rejected: {outs[0]}", {"stage": "search", "stream": "shape-e2e",
+                      "font_line": fontline[:200]}, found_input=False)
+        return
+    spec = q(model, oracle)
+    bad = 0
+    dist = {}
+    for ln, orc, t, o, sp in zip(lines, oracle, meta, outs[1:], spec):
+        want = [int(x) for x in sp.split()[1:]]
+        got, got_letters = None, None
+        f = o.split()
+        if f and f[0] == "ok" and int(f[1]) == len(t):
+            gids = [int(x.split(":")[0]) for x in f[2:]][::-1]          # rtl output is in visual order
+            got = [((g - 1) // k - 1) % 8 if g >= 1 else -1 for g in gids]    # block 0 = unsubstituted -> 7 (none)
+            got_letters = sorted(1 + (g - 1) % k for g in gids)
+            for a in got:
+                dist[a] = dist.get(a, 0) + 1
+        ok = got == want and got_letters == sorted(1 + letters.index(c) for c in t)
+        if not ok:
+            bad += 1
+            if bad <= 3:
+                ctx.violation(f"shape() on the positional-forms font: forms {got} differ from the spec {want} for {orc}",
+                              {"stage": "search", "stream": "shape-e2e", "font_line": fontline, "request": ln,
+                               "oracle": orc, "expected": want, "observed": o})
+    ctx.note_search("shape-e2e", len(lines), len(lines), mismatches=bad,
+                    forms={ACTION_NAMES[a] if 0 <= a < 8 else str(a): v for a, v in sorted(dist.items())},
+                    rule=f"public shape() (scripts arab/syrc, rtl) on a generated font with {k} letters x 7 single-substitution "
+                         f"features; all class words of length <= {maxlen_exh} x contexts of length 0/1 plus random words "
+                         "<= 30 with contexts <= 5; form decoded from the glyph id == Lean spec")
 
 
 def replay(ctx, rp):
     shim = vlib.build_harness()
     model = vlib.build_model()
     rc = 0
+    if rp.get("stream") == "shape-e2e":
+        o = vlib.run_groups(shim, [[rp["font_line"], rp["request"]]], nproc=1)[0]
+        print("impl    :", o[1]); print("observed:", rp["observed"]); print("expected forms:", rp["expected"])
+        return 0 if o[1] != rp["observed"] else 1
     if rp.get("stream") == "masks-oracle":
         a = strip_flags(q(shim, [rp["request"]], nproc=1)[0])
         print("impl    :", a); print("expected:", rp["expected"])
